@@ -349,7 +349,18 @@ const c09Rule = "workloads: 1-4 shared objects (generated parsers whose nodes ca
 	"any DATA RACE report fails the check; non-trivial = >=4 goroutines share one object with >=2 distinct inputs; distinct by SHA-256 " +
 	"of the workload. The Go scheduler is not controlled: this is evidence about interleavings, not coverage of them."
 
+// the symbol table of the default (text/scanner) lexer as it is when the test binary starts
+var c09ScannerSyms = sortedSyms(lexer.TextScannerLexer.Symbols())
+
 func checkC09(c *c09Case, r *vstat.Run) outcome {
+	// what Symbols() of the default lexer hands out is the caller's: a caller that edits its copy (adds a symbol for
+	// a decorating definition, removes one) changes nothing for anybody else
+	if got := sortedSyms(lexer.TextScannerLexer.Symbols()); got != c09ScannerSyms {
+		return violationf("symbols-changed", "the symbol table of the default lexer is %s, it was %s when the process started (a caller edited the map an earlier Symbols() call returned)", got, c09ScannerSyms)
+	}
+	mine := lexer.TextScannerLexer.Symbols()
+	delete(mine, "Comment")
+	mine["EOL"] = -99
 	objs := make([]*sharedObj, len(c.Objects))
 	for i := range c.Objects {
 		s, msg := materialise(&c.Objects[i])
